@@ -1254,36 +1254,47 @@ async def c17_case(backend, workers, seed, counters):
                 c_last_sent[0] = json.dumps(obj)
                 return await _o(obj)
             c.send = send
-        now = int(time.time())
+        # the collector runs in ONE elected worker (the one that also hosts the notify server); events stored through the
+        # OTHER workers come first, each worker's round is judged before the next one stores anything, and the first
+        # round starts after a pass over the empty store
+        main_pid = e2e.listener_pid(srv.nport, srv.worker_pids()) if workers > 1 else None
+        counters["e2e_main_worker_identified"] = counters.get("e2e_main_worker_identified", 0) + (1 if main_pid else 0)
+        order = sorted(byw.items(), key=lambda kv: kv[0] == main_pid)
+        await asyncio.sleep(3.0)
         plan_ = []
-        for w, c in byw.items():
-            # through EVERY worker: what a pass must remove and what it must leave alone
+        q = pubs[0]
+        for wi, (w, c) in enumerate(order):
+            now = int(time.time())
+            round_ = []
             for label, kind, tags, must_go in (
                 ("ephemeral", 20001, [], True), ("ephemeral-top", 29999, [], True), ("expired", 1, [["expiration", str(now - 50)]], True),
                 ("expires-later", 1, [["expiration", str(now + 3600)]], False), ("plain", 1, [], False), ("kind-30000", 30000, [["d", "w%s" % w]], False),
-                ("kind-19999", 19999, [], False), ("malformed-expiration", 1, [["expiration", "soon"]], False), ("expires-soon", 1, [["expiration", str(now + 4)]], True),
+                ("kind-19999", 19999, [], False), ("malformed-expiration", 1, [["expiration", "soon"]], False), ("expires-soon", 1, [["expiration", str(now + 3)]], True),
             ):
+                if wi == 0 and label == "expires-later":
+                    continue  # nothing that expires later is stored before the first round was judged
                 # a key per worker: the replaceable kinds of one worker must not supersede those of another
-                ev = ref.make_event(ref.key_from_seed("e2e-c17-w%s" % len([x for x in byw if x <= w])), kind=kind, created_at=now - 10, tags=tags,
+                ev = ref.make_event(ref.key_from_seed("e2e-c17-w%d" % wi), kind=kind, created_at=now - 10, tags=tags,
                                     content="c17 e2e %s w%s %d" % (label, w, seed))
                 n0 = await c.send(["EVENT", ev])
                 fr = await c.wait_for(lambda fr: [m for m in fr if isinstance(m, list) and m[:2] == ["OK", ev["id"]]], timeout=30, since=n0 - 1)
                 if fr and fr[-1][2] is True:
-                    plan_.append((label, ev, must_go, w))
-        # several passes of the 2 s collector (it runs in one elected worker only)
-        await asyncio.sleep(9.0)
-        q = pubs[0]
-        if backend == "lmdb":
-            plan_ = [p for p in plan_ if not p[0].startswith("ephemeral")]  # never stored there
-        got = await stored_ids(q, [ev["id"] for _, ev, _, _ in plan_])
-        for label, ev, must_go, w in plan_:
-            bump(counters, "e2e_collector_judgements")
-            nontrivial.append(h(["e2e-c17", backend, label, w == q.worker]))
-            if must_go and ev["id"] in got:
-                V("survived/%s/stored-through-%s" % (label, "the-querying-worker" if w == q.worker else "another-worker"),
-                  "%s event stored through worker %s is still returned after several collector passes (interval 2 s, 9 s waited)" % (label, w))
-            if not must_go and ev["id"] not in got:
-                V("removed/%s" % label, "%s event stored through worker %s is gone after collector passes" % (label, w))
+                    round_.append((label, ev, must_go, w))
+            # several passes of the 2 s collector
+            await asyncio.sleep(8.0)
+            if backend == "lmdb":
+                round_ = [p for p in round_ if not p[0].startswith("ephemeral")]  # never stored there
+            got = await stored_ids(q, [ev["id"] for _, ev, _, _ in round_])
+            for label, ev, must_go, w in round_:
+                bump(counters, "e2e_collector_judgements")
+                role = "the-collecting-worker" if w == main_pid else ("another-worker" if main_pid else "a-worker")
+                nontrivial.append(h(["e2e-c17", backend, label, role]))
+                if must_go and ev["id"] in got:
+                    V("survived/%s/stored-through-%s" % (label, role),
+                      "%s event stored through worker %s is still returned after several collector passes (interval 2 s, 8 s waited; the collector runs in worker %s)" % (label, w, main_pid))
+                if not must_go and ev["id"] not in got:
+                    V("removed/%s" % label, "%s event stored through worker %s is gone after collector passes" % (label, w))
+            plan_.extend(round_)
         # an orderly restart collects nothing by itself and loses nothing
         keep = [(label, ev) for label, ev, must_go, w in plan_ if not must_go]
         for c in conns:
